@@ -126,6 +126,17 @@ def judge(job, r, ctx_seed=0, want=("C01", "C02", "C03", "C05", "C06", "C07", "C
             props.append("C06")
         add(props, f"{tag}: run ends with {res['outcome']} {f} at pc={hex(res['pc'])} after {res['steps']} steps "
                    f"instead of returning to the caller")
+        if "C07" in want and res["outcome"] == "fault":
+            # does the same image return cleanly when loaded exactly where it was generated for?  Then its
+            # behaviour depends on the load address.
+            g0 = cfg["interpreter_start_address"] // 4 * 4
+            Lg = M.Layout(code_base=g0, data_base=0x7_4000_0000, stack_top=0x7_8000_0000, ss_base=0x7_9000_0000,
+                          halt=0x7_a000_0040)
+            resg, _, _ = run_traced(job, r, "g", L=Lg, max_steps=budget, regs_seed=rng.randrange(1, 1000))
+            if resg["outcome"] == "halt":
+                add(["C07"], f"{tag}: loaded at {hex(L1.code_base)} the run ends with {res['outcome']} {f} at "
+                             f"pc={hex(res['pc'])} (step {res['steps']}), loaded at the generation address "
+                             f"{hex(g0)} the same image returns cleanly: behaviour depends on the load address")
         return issues
     trace = [t for t in M.read_trace(trp) if t[0] != L1.halt - L1.code_base]
     # ---- C02 registers restored, stack bound
